@@ -863,3 +863,16 @@ func (p *TSSParamChurn) Act(e *Env) {
 		e.St.Fault("tss_params_changed_by_governance")
 	}
 }
+
+// AssignFaults arms the fault point after the nonce dequeue (world.FailAssign): in the next block the n-th signing creation
+// -- whichever source it comes from: a direct request, an oracle result, a tunnel packet, a retry or a hand-over -- fails
+// after the selected members' nonces have been taken from their queues. Everything that creation did must be undone.
+type AssignFaults struct{ Rate int }
+
+func (p *AssignFaults) OnBlock(e *Env, blk *world.BlockRecord) {}
+func (p *AssignFaults) Act(e *Env) {
+	if e.Draining || e.Step < 3 || !e.Ch.Bool("tss.assignfault", p.Rate) {
+		return
+	}
+	e.W.FailAssign[e.W.Height+1] = 1 + e.Ch.Intn("tss.assignfault.n", 3)
+}
